@@ -40,7 +40,8 @@ for label in sorted(META):
         res[ck] = dict(caught=viol > 0, violation_lines=viol, tool_error="TOOL-ERROR" in log)
     meta = dict(label=label, breaks_property=prop, description=desc, needs_to_manifest=needs, confirmation=c,
                 confirmed=confirmed, checks_quick_tier=res, before_strengthening=BEFORE.get(label, "caught by the checks as first built"),
-                ran=["tools/confirm_seed.sh work/seedin/%s %s   # demo on clean tree, demo with patch, 34 stable tests with patch" % (label, label)]
+                ran=["%stools/confirm_seed.sh work/seedin/%s %s   # demo on clean tree, demo with patch, the crate's unit tests (34 stable baseline tests) with patch"
+                     % (("SUITE_FLAGS=%s " % c["suite_flags"]) if c and c.get("suite_flags") else "", label, label)]
                 + ["tools/eval_seed.sh seeded/%s/patch.diff %s %s   # quick tier against a patched scratch copy of /repo" % (label, label, ck)
                    for ck in checks.split(",")])
     results.append(meta)
